@@ -65,6 +65,47 @@ class Ctx:
         return layers.leaf_cycle(self.par, self.sc.links)
 
 
+def declared_links(sc):
+    """Dependencies as DECLARED ON THE INPUT (the result may have lost or gained links; that is C06's business, and the
+    scheduling properties speak about the declared prerequisites): pred map and succ map by task id; entries are
+    ('m', id) for members and ('e', id, start, end) for tasks of another WBS."""
+    ids = [t[0] for t in sc.tasks]
+    preds = {i: [] for i in ids}
+    succs = {i: [] for i in ids}
+    for p, s_ in sc.links:
+        preds[ids[s_]].append(('m', ids[p]))
+        succs[ids[p]].append(('m', ids[s_]))
+    for a, b in sc.ext_links:
+        ea = sc.ext[a[1]] if a[0] == 'e' else None
+        eb = sc.ext[b[1]] if b[0] == 'e' else None
+        if a[0] == 'e' and b[0] == 'x':
+            preds[ids[b[1]]].append(('e', ea[0], ea[1].get('start'), ea[1].get('end')))
+        if a[0] == 'x' and b[0] == 'e':
+            succs[ids[a[1]]].append(('e', eb[0], eb[1].get('start'), eb[1].get('end')))
+    return preds, succs
+
+
+def install_declared(sc, ob):
+    """Replace the result-reported link tables of the observation by the declared ones (ends/starts still read from the result)."""
+    preds, succs = declared_links(sc)
+    ob.pred_ends = {}
+    ob.succ_starts = {}
+    for tid in ob.order:
+        pe, ss = [], []
+        for e in preds.get(tid, []):
+            if e[0] == 'm' and e[1] in ob.by_id:
+                pe.append((e[1], ob.by_id[e[1]].end, True))
+            elif e[0] == 'e':
+                pe.append((e[1], e[3], False))
+        for e in succs.get(tid, []):
+            if e[0] == 'm' and e[1] in ob.by_id:
+                ss.append((e[1], ob.by_id[e[1]].start, True))
+            elif e[0] == 'e':
+                ss.append((e[1], e[2], False))
+        ob.pred_ends[tid] = pe
+        ob.succ_starts[tid] = ss
+
+
 def prereq_ends(ob, tid):
     """(id, end, is_member) of every prerequisite leaf of tid: predecessors declared on tid and on
     every ancestor, each expanded to its leaf descendants (external predecessors count as leaves)."""
